@@ -739,8 +739,9 @@ def exec_loop(self, node, st, iterable):
     if is_for:
         st.ghost = dict(st.ghost)
         st.ghost[idx_name] = int_val(0)
-        if view.elt_t is not None or True:
-            st.ghost[f"_n{k}"] = int_val(view.length)
+        st.ghost[f"_n{k}"] = int_val(view.length)
+        if getattr(view, "keys_seq", None) is not None:
+            st.ghost[f"_keys{k}"] = view.keys_seq       # the (arbitrary) enumeration of the iterated dict/set
     # 1. invariant holds on entry
     for j, inv in enumerate(spec.invariant):
         self.oblige(f"{sid}.inv{j}.entry", st, self.spec_truth(inv, st), inv)
